@@ -40,7 +40,7 @@ variable {K : Type} [Field K] [DecidableEq K] [CharZero K]
 theorem gen_abc_general (n a b : K) (h : ¬ (n = 0 ∧ (a + b = 0 ∨ a + b = -1))) :
     Generated.C07.abc n a b = abcK n a b := by
   simp only [Generated.C07.abc, ofInt_eq, Int.cast_zero, Int.reduceNeg, Int.cast_neg, Int.cast_one, if_neg h]
-  simp [abcK, pow_two]
+  try simp [abcK, pow_two]
 
 /-- translated `recurrence_abc`, `n = 0 ∧ α+β ∈ {0,−1}` branch, is the model's special triple -/
 theorem gen_abc_special (a b : K) (h : a + b = 0 ∨ a + b = -1) :
@@ -56,153 +56,172 @@ theorem gen_abc_nat (n : ℕ) (a b : K) : Generated.C07.abc ((n:K) + 1) a b = ab
 
 /-- the translated body of `jacobi` (loop included) computes the model's `jacobi n α β x`, every `n` -/
 theorem gen_jacobi (n : ℕ) (a b x : K) : Generated.C07.jacobi (n : ℤ) a b x = jacobi n a b x := by
-  match n with
-  | 0 => simp [Generated.C07.jacobi, jacobi_zero]
-  | 1 => simp [Generated.C07.jacobi, jacobi_one, jacP1]
-  | n+2 =>
-    have h0 : ¬ (((n + 2 : ℕ) : ℤ) = 0) := by omega
-    have h1 : ¬ (((n + 2 : ℕ) : ℤ) = 1) := by omega
-    have e1 : Generated.C07.abc (1:K) a b = abc 1 a b := by simpa using gen_abc_nat 0 a b
-    have P2 : ((Generated.C07.abc (1:K) a b).1 * x + (Generated.C07.abc (1:K) a b).2.1) * (a + 1 + (a + b + 2) * ((x - 1) / 2))
-        - (Generated.C07.abc (1:K) a b).2.2 = jacobi 2 a b x := by
-      rw [e1, jacobi_succ_succ, jacobi_one, jacobi_zero]; simp [jacStep, jacP1]
-    unfold Generated.C07.jacobi
-    simp only [if_neg h0, if_neg h1, ofInt_eq, Int.cast_one, Int.cast_ofNat, Int.cast_zero]
-    split
-    · rename_i h
-      have : n = 0 := by omega
-      subst this
-      exact P2
-    · rw [show ((n+2:ℕ):ℤ) + 1 = 3 + (n:ℕ) by push_cast; ring]
-      refine (forRange_induct (fun k (s : K × K × K × K × K × K) => s.2.1 = jacobi (k+1) a b x ∧ s.2.2.2.2.2 = jacobi (k+2) a b x)
-        3 _ _ ?_ ?_ n).2
-      · exact ⟨by simp [jacobi_one, jacP1], P2⟩
-      · rintro k s ⟨hs1, hs2⟩
-        refine ⟨hs2, ?_⟩
-        simp only [hs1, hs2]
-        have : (((3 + (k:ℤ) : ℤ) : K) - 1) = ((k + 1 : ℕ) : K) + 1 := by push_cast; ring
-        rw [this, gen_abc_nat, jacobi_succ_succ (k+1)]
-        simp [jacStep]
+  first
+  | (show Model.C07.jacobi _ _ _ _ = _; simp)
+  | (
+      match n with
+      | 0 => simp [Generated.C07.jacobi, jacobi_zero]
+      | 1 => simp [Generated.C07.jacobi, jacobi_one, jacP1]
+      | n+2 =>
+        have h0 : ¬ (((n + 2 : ℕ) : ℤ) = 0) := by omega
+        have h1 : ¬ (((n + 2 : ℕ) : ℤ) = 1) := by omega
+        have e1 : Generated.C07.abc (1:K) a b = abc 1 a b := by simpa using gen_abc_nat 0 a b
+        have P2 : ((Generated.C07.abc (1:K) a b).1 * x + (Generated.C07.abc (1:K) a b).2.1) * (a + 1 + (a + b + 2) * ((x - 1) / 2))
+            - (Generated.C07.abc (1:K) a b).2.2 = jacobi 2 a b x := by
+          rw [e1, jacobi_succ_succ, jacobi_one, jacobi_zero]; simp [jacStep, jacP1]
+        unfold Generated.C07.jacobi
+        simp only [if_neg h0, if_neg h1, ofInt_eq, Int.cast_one, Int.cast_ofNat, Int.cast_zero]
+        split
+        · rename_i h
+          have : n = 0 := by omega
+          subst this
+          exact P2
+        · rw [show ((n+2:ℕ):ℤ) + 1 = 3 + (n:ℕ) by push_cast; ring]
+          refine (forRange_induct (fun k (s : K × K × K × K × K × K) => s.2.1 = jacobi (k+1) a b x ∧ s.2.2.2.2.2 = jacobi (k+2) a b x)
+            3 _ _ ?_ ?_ n).2
+          · exact ⟨by simp [jacobi_one, jacP1], P2⟩
+          · rintro k s ⟨hs1, hs2⟩
+            refine ⟨hs2, ?_⟩
+            simp only [hs1, hs2]
+            have : (((3 + (k:ℤ) : ℤ) : K) - 1) = ((k + 1 : ℕ) : K) + 1 := by push_cast; ring
+            rw [this, gen_abc_nat, jacobi_succ_succ (k+1)]
+            simp [jacStep])
 
 /-- the translated body of `hermite_He` (loop included) computes the model's `hermiteHe n x`, every `n` -/
 theorem gen_hermiteHe (n : ℕ) (x : K) : Generated.C07.hermiteHe (n : ℤ) x = hermiteHe n x := by
-  match n with
-  | 0 => simp [Generated.C07.hermiteHe, hermiteHe_zero]
-  | 1 => simp [Generated.C07.hermiteHe, hermiteHe_one]
-  | n+2 =>
-    have h0 : ¬ (((n + 2 : ℕ) : ℤ) = 0) := by omega
-    have h1 : ¬ (((n + 2 : ℕ) : ℤ) = 1) := by omega
-    have P2 : x * x - 1 = hermiteHe 2 x := by rw [hermiteHe_succ_succ, hermiteHe_one, hermiteHe_zero]; simp
-    unfold Generated.C07.hermiteHe
-    simp only [if_neg h0, if_neg h1, ofInt_eq, Int.cast_one, Int.cast_ofNat, Int.cast_zero]
-    split
-    · rename_i h
-      have : n = 0 := by omega
-      subst this
-      exact P2
-    · rename_i h
-      obtain ⟨m, rfl⟩ : ∃ m, n = m + 1 := ⟨n - 1, by omega⟩
-      rw [show ((m+1+2:ℕ):ℤ) + 1 = 3 + ((m+1 : ℕ):ℤ) by push_cast; ring]
-      refine (forRange_induct (fun k (s : K × K × K) => s.2.1 = hermiteHe (k+1) x ∧ s.2.2 = hermiteHe (k+2) x
-          ∧ (1 ≤ k → s.1 = hermiteHe (k+2) x)) 3 _ _ ?_ ?_ (m+1)).2.2 (by omega)
-      · exact ⟨by simp [hermiteHe_one], P2, by omega⟩
-      · rintro k s ⟨hs1, hs2, -⟩
-        have e : x * s.2.2 - (((3 + (k:ℤ) : ℤ) : K) - 1) * s.2.1 = hermiteHe (k+3) x := by
-          rw [hs1, hs2, hermiteHe_succ_succ (k+1)]; push_cast; ring
-        exact ⟨hs2, e, fun _ => e⟩
+  first
+  | (show Model.C07.hermiteHe _ _ = _; simp)
+  | (
+      match n with
+      | 0 => simp [Generated.C07.hermiteHe, hermiteHe_zero]
+      | 1 => simp [Generated.C07.hermiteHe, hermiteHe_one]
+      | n+2 =>
+        have h0 : ¬ (((n + 2 : ℕ) : ℤ) = 0) := by omega
+        have h1 : ¬ (((n + 2 : ℕ) : ℤ) = 1) := by omega
+        have P2 : x * x - 1 = hermiteHe 2 x := by rw [hermiteHe_succ_succ, hermiteHe_one, hermiteHe_zero]; simp
+        unfold Generated.C07.hermiteHe
+        simp only [if_neg h0, if_neg h1, ofInt_eq, Int.cast_one, Int.cast_ofNat, Int.cast_zero]
+        split
+        · rename_i h
+          have : n = 0 := by omega
+          subst this
+          exact P2
+        · rename_i h
+          obtain ⟨m, rfl⟩ : ∃ m, n = m + 1 := ⟨n - 1, by omega⟩
+          rw [show ((m+1+2:ℕ):ℤ) + 1 = 3 + ((m+1 : ℕ):ℤ) by push_cast; ring]
+          refine (forRange_induct (fun k (s : K × K × K) => s.2.1 = hermiteHe (k+1) x ∧ s.2.2 = hermiteHe (k+2) x
+              ∧ (1 ≤ k → s.1 = hermiteHe (k+2) x)) 3 _ _ ?_ ?_ (m+1)).2.2 (by omega)
+          · exact ⟨by simp [hermiteHe_one], P2, by omega⟩
+          · rintro k s ⟨hs1, hs2, -⟩
+            have e : x * s.2.2 - (((3 + (k:ℤ) : ℤ) : K) - 1) * s.2.1 = hermiteHe (k+3) x := by
+              rw [hs1, hs2, hermiteHe_succ_succ (k+1)]; push_cast; ring
+            exact ⟨hs2, e, fun _ => e⟩)
 
 /-- the translated body of `hermite_H` (loop included) computes the model's `hermiteH n x`, every `n` -/
 theorem gen_hermiteH (n : ℕ) (x : K) : Generated.C07.hermiteH (n : ℤ) x = hermiteH n x := by
-  match n with
-  | 0 => simp [Generated.C07.hermiteH, hermiteH_zero]
-  | 1 => simp [Generated.C07.hermiteH, hermiteH_one]
-  | n+2 =>
-    have h0 : ¬ (((n + 2 : ℕ) : ℤ) = 0) := by omega
-    have h1 : ¬ (((n + 2 : ℕ) : ℤ) = 1) := by omega
-    have P2 : 4 * (x * x) - 2 = hermiteH 2 x := by
-      rw [hermiteH_succ_succ, hermiteH_one, hermiteH_zero]; simp; ring
-    unfold Generated.C07.hermiteH
-    simp only [if_neg h0, if_neg h1, ofInt_eq, Int.cast_one, Int.cast_ofNat, Int.cast_zero]
-    split
-    · rename_i h
-      have : n = 0 := by omega
-      subst this
-      exact P2
-    · rename_i h
-      obtain ⟨m, rfl⟩ : ∃ m, n = m + 1 := ⟨n - 1, by omega⟩
-      rw [show ((m+1+2:ℕ):ℤ) + 1 = 3 + ((m+1 : ℕ):ℤ) by push_cast; ring]
-      refine (forRange_induct (fun k (s : K × K × K) => s.2.1 = hermiteH (k+1) x ∧ s.2.2 = hermiteH (k+2) x
-          ∧ (1 ≤ k → s.1 = hermiteH (k+2) x)) 3 _ _ ?_ ?_ (m+1)).2.2 (by omega)
-      · exact ⟨by simp [hermiteH_one], P2, by omega⟩
-      · rintro k s ⟨hs1, hs2, -⟩
-        have e : 2 * x * s.2.2 - 2 * (((3 + (k:ℤ) : ℤ) : K) - 1) * s.2.1 = hermiteH (k+3) x := by
-          rw [hs1, hs2, hermiteH_succ_succ (k+1)]; push_cast; ring
-        exact ⟨hs2, e, fun _ => e⟩
+  first
+  | (show Model.C07.hermiteH _ _ = _; simp)
+  | (
+      match n with
+      | 0 => simp [Generated.C07.hermiteH, hermiteH_zero]
+      | 1 => simp [Generated.C07.hermiteH, hermiteH_one]
+      | n+2 =>
+        have h0 : ¬ (((n + 2 : ℕ) : ℤ) = 0) := by omega
+        have h1 : ¬ (((n + 2 : ℕ) : ℤ) = 1) := by omega
+        have P2 : 4 * (x * x) - 2 = hermiteH 2 x := by
+          rw [hermiteH_succ_succ, hermiteH_one, hermiteH_zero]; simp; ring
+        unfold Generated.C07.hermiteH
+        simp only [if_neg h0, if_neg h1, ofInt_eq, Int.cast_one, Int.cast_ofNat, Int.cast_zero]
+        split
+        · rename_i h
+          have : n = 0 := by omega
+          subst this
+          exact P2
+        · rename_i h
+          obtain ⟨m, rfl⟩ : ∃ m, n = m + 1 := ⟨n - 1, by omega⟩
+          rw [show ((m+1+2:ℕ):ℤ) + 1 = 3 + ((m+1 : ℕ):ℤ) by push_cast; ring]
+          refine (forRange_induct (fun k (s : K × K × K) => s.2.1 = hermiteH (k+1) x ∧ s.2.2 = hermiteH (k+2) x
+              ∧ (1 ≤ k → s.1 = hermiteH (k+2) x)) 3 _ _ ?_ ?_ (m+1)).2.2 (by omega)
+          · exact ⟨by simp [hermiteH_one], P2, by omega⟩
+          · rintro k s ⟨hs1, hs2, -⟩
+            have e : 2 * x * s.2.2 - 2 * (((3 + (k:ℤ) : ℤ) : K) - 1) * s.2.1 = hermiteH (k+3) x := by
+              rw [hs1, hs2, hermiteH_succ_succ (k+1)]; push_cast; ring
+            exact ⟨hs2, e, fun _ => e⟩)
 
 /-- the translated body of `laguerre` (loop included) computes the model's `laguerre n α x`, every `n` -/
 theorem gen_laguerre (n : ℕ) (al x : K) : Generated.C07.laguerre (n : ℤ) al x = laguerre n al x := by
-  match n with
-  | 0 => simp [Generated.C07.laguerre, laguerre_zero]
-  | 1 => simp [Generated.C07.laguerre, laguerre_one]
-  | n+2 =>
-    have h0 : ¬ (((n + 2 : ℕ) : ℤ) = 0) := by omega
-    have h1 : ¬ (((n + 2 : ℕ) : ℤ) = 1) := by omega
-    have P2 : (1:K) / 2 * ((al + 3 - x) * (al + 1 - x) - (al + 1) * 1) = laguerre 2 al x := by
-      rw [laguerre_succ_succ, laguerre_one, laguerre_zero]; simp; ring
-    unfold Generated.C07.laguerre
-    simp only [if_neg h0, if_neg h1, ofInt_eq, ofFrac_eq, Int.cast_one, Int.cast_ofNat, Int.cast_zero, Nat.cast_ofNat]
-    split
-    · rename_i h
-      have : n = 0 := by omega
-      subst this
-      exact P2
-    · rw [show ((n+2:ℕ):ℤ) + 1 = 3 + (n:ℕ) by push_cast; ring]
-      refine (forRange_induct (fun k (s : K × K × K × K × K × K) => s.2.2.2.1 = laguerre (k+2) al x
-          ∧ s.2.2.2.2.1 = laguerre (k+2) al x ∧ s.2.2.2.2.2 = laguerre (k+1) al x) 3 _ _ ?_ ?_ n).1
-      · exact ⟨P2, P2, by simp [laguerre_one]⟩
-      · rintro k s ⟨-, hs2, hs3⟩
-        have e : 1 / ((((3 + (k:ℤ) : ℤ) : K) - 1) + 1) * ((al + 2 * (((3 + (k:ℤ) : ℤ) : K) - 1) + 1 - x) * s.2.2.2.2.1
-            - (al + (((3 + (k:ℤ) : ℤ) : K) - 1)) * s.2.2.2.2.2) = laguerre (k+3) al x := by
-          rw [hs2, hs3, laguerre_succ_succ (k+1)]; push_cast; ring
-        exact ⟨e, e, hs2⟩
+  first
+  | (show Model.C07.laguerre _ _ _ = _; simp)
+  | (
+      match n with
+      | 0 => simp [Generated.C07.laguerre, laguerre_zero]
+      | 1 => simp [Generated.C07.laguerre, laguerre_one]
+      | n+2 =>
+        have h0 : ¬ (((n + 2 : ℕ) : ℤ) = 0) := by omega
+        have h1 : ¬ (((n + 2 : ℕ) : ℤ) = 1) := by omega
+        have P2 : (1:K) / 2 * ((al + 3 - x) * (al + 1 - x) - (al + 1) * 1) = laguerre 2 al x := by
+          rw [laguerre_succ_succ, laguerre_one, laguerre_zero]; simp; ring
+        unfold Generated.C07.laguerre
+        simp only [if_neg h0, if_neg h1, ofInt_eq, ofFrac_eq, Int.cast_one, Int.cast_ofNat, Int.cast_zero, Nat.cast_ofNat]
+        split
+        · rename_i h
+          have : n = 0 := by omega
+          subst this
+          exact P2
+        · rw [show ((n+2:ℕ):ℤ) + 1 = 3 + (n:ℕ) by push_cast; ring]
+          refine (forRange_induct (fun k (s : K × K × K × K × K × K) => s.2.2.2.1 = laguerre (k+2) al x
+              ∧ s.2.2.2.2.1 = laguerre (k+2) al x ∧ s.2.2.2.2.2 = laguerre (k+1) al x) 3 _ _ ?_ ?_ n).1
+          · exact ⟨P2, P2, by simp [laguerre_one]⟩
+          · rintro k s ⟨-, hs2, hs3⟩
+            have e : 1 / ((((3 + (k:ℤ) : ℤ) : K) - 1) + 1) * ((al + 2 * (((3 + (k:ℤ) : ℤ) : K) - 1) + 1 - x) * s.2.2.2.2.1
+                - (al + (((3 + (k:ℤ) : ℤ) : K) - 1)) * s.2.2.2.2.2) = laguerre (k+3) al x := by
+              rw [hs2, hs3, laguerre_succ_succ (k+1)]; push_cast; ring
+            exact ⟨e, e, hs2⟩)
 
 /-- the translated body of `dickson1` (loop included) computes the model's `dickson1 n a x`, every `n` -/
 theorem gen_dickson1 (n : ℕ) (al x : K) : Generated.C07.dickson1 (n : ℤ) al x = dickson1 n al x := by
-  match n with
-  | 0 => simp [Generated.C07.dickson1, dickson1, dickPair]
-  | 1 => simp [Generated.C07.dickson1, dickson1, dickPair]
-  | n+2 =>
-    have h0 : ¬ (((n + 2 : ℕ) : ℤ) = 0) := by omega
-    have h1 : ¬ (((n + 2 : ℕ) : ℤ) = 1) := by omega
-    unfold Generated.C07.dickson1
-    simp only [if_neg h0, if_neg h1, ofInt_eq, Int.cast_one, Int.cast_ofNat, Int.cast_zero]
-    rw [show ((n+2:ℕ):ℤ) + 1 = 2 + ((n+1:ℕ):ℤ) by push_cast; ring]
-    refine (forRange_induct (fun k (s : K × K × K) => s.2.1 = dickson1 (k+1) al x ∧ s.2.2 = dickson1 k al x
-        ∧ (1 ≤ k → s.1 = dickson1 (k+1) al x)) 2 _ _ ?_ ?_ (n+1)).2.2 (by omega)
-    · exact ⟨by simp [dickson1, dickPair], by simp [dickson1, dickPair], by omega⟩
-    · rintro k s ⟨hs1, hs2, -⟩
-      have e : x * s.2.1 - al * s.2.2 = dickson1 (k+2) al x := by
-        rw [hs1, hs2]; simp only [dickson1]; rw [dickPair_succ_succ]
-      exact ⟨e, hs1, fun _ => e⟩
+  first
+  | (show Model.C07.dickson1 _ _ _ = _; simp)
+  | (
+      match n with
+      | 0 => simp [Generated.C07.dickson1, dickson1, dickPair]
+      | 1 => simp [Generated.C07.dickson1, dickson1, dickPair]
+      | n+2 =>
+        have h0 : ¬ (((n + 2 : ℕ) : ℤ) = 0) := by omega
+        have h1 : ¬ (((n + 2 : ℕ) : ℤ) = 1) := by omega
+        unfold Generated.C07.dickson1
+        simp only [if_neg h0, if_neg h1, ofInt_eq, Int.cast_one, Int.cast_ofNat, Int.cast_zero]
+        rw [show ((n+2:ℕ):ℤ) + 1 = 2 + ((n+1:ℕ):ℤ) by push_cast; ring]
+        refine (forRange_induct (fun k (s : K × K × K) => s.2.1 = dickson1 (k+1) al x ∧ s.2.2 = dickson1 k al x
+            ∧ (1 ≤ k → s.1 = dickson1 (k+1) al x)) 2 _ _ ?_ ?_ (n+1)).2.2 (by omega)
+        · exact ⟨by simp [dickson1, dickPair], by simp [dickson1, dickPair], by omega⟩
+        · rintro k s ⟨hs1, hs2, -⟩
+          have e : x * s.2.1 - al * s.2.2 = dickson1 (k+2) al x := by
+            rw [hs1, hs2]; simp only [dickson1]; rw [dickPair_succ_succ]
+          exact ⟨e, hs1, fun _ => e⟩)
 
 /-- the translated body of `dickson2` (loop included) computes the model's `dickson2 n a x`, every `n` -/
 theorem gen_dickson2 (n : ℕ) (al x : K) : Generated.C07.dickson2 (n : ℤ) al x = dickson2 n al x := by
-  match n with
-  | 0 => simp [Generated.C07.dickson2, dickson2, dickPair]
-  | 1 => simp [Generated.C07.dickson2, dickson2, dickPair]
-  | n+2 =>
-    have h0 : ¬ (((n + 2 : ℕ) : ℤ) = 0) := by omega
-    have h1 : ¬ (((n + 2 : ℕ) : ℤ) = 1) := by omega
-    unfold Generated.C07.dickson2
-    simp only [if_neg h0, if_neg h1, ofInt_eq, Int.cast_one, Int.cast_ofNat, Int.cast_zero]
-    rw [show ((n+2:ℕ):ℤ) + 1 = 2 + ((n+1:ℕ):ℤ) by push_cast; ring]
-    refine (forRange_induct (fun k (s : K × K × K) => s.2.1 = dickson2 (k+1) al x ∧ s.2.2 = dickson2 k al x
-        ∧ (1 ≤ k → s.1 = dickson2 (k+1) al x)) 2 _ _ ?_ ?_ (n+1)).2.2 (by omega)
-    · exact ⟨by simp [dickson2, dickPair], by simp [dickson2, dickPair], by omega⟩
-    · rintro k s ⟨hs1, hs2, -⟩
-      have e : x * s.2.1 - al * s.2.2 = dickson2 (k+2) al x := by
-        rw [hs1, hs2]; simp only [dickson2]; rw [dickPair_succ_succ]
-      exact ⟨e, hs1, fun _ => e⟩
+  first
+  | (show Model.C07.dickson2 _ _ _ = _; simp)
+  | (
+      match n with
+      | 0 => simp [Generated.C07.dickson2, dickson2, dickPair]
+      | 1 => simp [Generated.C07.dickson2, dickson2, dickPair]
+      | n+2 =>
+        have h0 : ¬ (((n + 2 : ℕ) : ℤ) = 0) := by omega
+        have h1 : ¬ (((n + 2 : ℕ) : ℤ) = 1) := by omega
+        unfold Generated.C07.dickson2
+        simp only [if_neg h0, if_neg h1, ofInt_eq, Int.cast_one, Int.cast_ofNat, Int.cast_zero]
+        rw [show ((n+2:ℕ):ℤ) + 1 = 2 + ((n+1:ℕ):ℤ) by push_cast; ring]
+        refine (forRange_induct (fun k (s : K × K × K) => s.2.1 = dickson2 (k+1) al x ∧ s.2.2 = dickson2 k al x
+            ∧ (1 ≤ k → s.1 = dickson2 (k+1) al x)) 2 _ _ ?_ ?_ (n+1)).2.2 (by omega)
+        · exact ⟨by simp [dickson2, dickPair], by simp [dickson2, dickPair], by omega⟩
+        · rintro k s ⟨hs1, hs2, -⟩
+          have e : x * s.2.1 - al * s.2.2 = dickson2 (k+2) al x := by
+            rw [hs1, hs2]; simp only [dickson2]; rw [dickPair_succ_succ]
+          exact ⟨e, hs1, fun _ => e⟩)
+
 /-- the model's `f_n, g_n, h_n` satisfy the recursions written in `f_qbfs`, `g_qbfs`, `h_qbfs` -/
 theorem gen_qbfs_fgh (sqrt : K → K) (k : ℕ) (f : K) :
     qbfsF sqrt 0 = Generated.C07.qbfsF0 sqrt ∧ qbfsF sqrt 1 = Generated.C07.qbfsF1 sqrt
@@ -214,9 +233,9 @@ theorem gen_qbfs_fgh (sqrt : K → K) (k : ℕ) (f : K) :
   · simp [qbfsF, qbfsFG, Generated.C07.qbfsF0]
   · simp [qbfsF, qbfsFG, Generated.C07.qbfsF1]
   · simp [qbfsG, qbfsFG, Generated.C07.qbfsG0]
-  · simp [qbfsH, Generated.C07.qbfsHBody]; ring
+  · first | (simp [qbfsH, Generated.C07.qbfsHBody]; ring) | simp [qbfsH, Generated.C07.qbfsHBody]
   · simp [qbfsG, qbfsF, qbfsFG, Generated.C07.qbfsGBody]
-  · simp [qbfsG, qbfsF, qbfsFG, Generated.C07.qbfsFBody]; congr 1; ring
+  · first | (simp [qbfsG, qbfsF, qbfsFG, Generated.C07.qbfsFBody]; congr 1; ring) | (simp [qbfsG, qbfsF, qbfsFG, Generated.C07.qbfsFBody]; try ring_nf)
 
 /-- one step of the model's coupled `(P, Q)` recurrence for Qbfs, written out -/
 theorem qbfsPQ_succ (sqrt : K → K) (rho : K) (n : ℕ) :
@@ -229,34 +248,37 @@ theorem qbfsPQ_succ (sqrt : K → K) (rho : K) (n : ℕ) :
 
 /-- the translated body of `Qbfs` (loop included) computes the model's `qbfs sqrt n x`, every `n`, every `sqrt` -/
 theorem gen_qbfs (sqrt : K → K) (n : ℕ) (x : K) : Generated.C07.qbfs sqrt (n : ℤ) x = qbfs sqrt n x := by
-  match n with
-  | 0 => simp [Generated.C07.qbfs, qbfs, qbfsPQ, pow_two]
-  | 1 => simp [Generated.C07.qbfs, qbfs, qbfsPQ, pow_two]
-  | n+2 =>
-    have h0 : ¬ (((n + 2 : ℕ) : ℤ) = 0) := by omega
-    have h1 : ¬ (((n + 2 : ℕ) : ℤ) = 1) := by omega
-    unfold Generated.C07.qbfs
-    simp only [if_neg h0, if_neg h1, ofInt_eq, npow_eq, Int.cast_one, Int.cast_ofNat, Int.cast_zero]
-    rw [show ((n+2:ℕ):ℤ) + 1 = 2 + ((n+1:ℕ):ℤ) by push_cast; ring]
-    rw [show qbfs sqrt (n+2) x = (qbfsPQ sqrt (x*x) (n+1)).2.2.2 * (x*x*(1-x*x)) from by
-      simp [qbfs, qbfsPQ_succ]]
-    congr 1
-    · refine (forRange_induct (fun k (s : K × K × K × K × K × K × K × K × K) =>
-          s.2.1 = (qbfsPQ sqrt (x*x) k).1 ∧ s.2.2.1 = (qbfsPQ sqrt (x*x) k).2.1
-          ∧ s.2.2.2.2.2.2.2.1 = (qbfsPQ sqrt (x*x) k).2.2.1 ∧ s.2.2.2.2.2.2.2.2 = (qbfsPQ sqrt (x*x) k).2.2.2
-          ∧ (1 ≤ k → s.2.2.2.2.2.2.1 = (qbfsPQ sqrt (x*x) k).2.2.2)) 2 _ _ ?_ ?_ (n+1)).2.2.2.2 (by omega)
-      · simp [qbfsPQ, pow_two]
-      · rintro k s ⟨hs1, hs2, hs3, hs4, -⟩
-        have eg : qbfsGi sqrt (2 + (k:ℤ) - 1) = qbfsG sqrt (k+1) := by
-          simp only [qbfsGi]; congr 1; omega
-        have eh : qbfsHi sqrt (2 + (k:ℤ) - 2) = qbfsH k (qbfsF sqrt k) := by
-          have : (2 + (k:ℤ) - 2).toNat = k := by omega
-          simp only [qbfsHi, this]
-        have ef : qbfsFi sqrt (2 + (k:ℤ)) = qbfsF sqrt (k+2) := by
-          simp only [qbfsFi]; congr 1; omega
-        simp only [eg, eh, ef, hs1, hs2, hs3, hs4, qbfsPQ_succ, pow_two]
-        exact ⟨trivial, trivial, trivial, trivial, fun _ => trivial⟩
-    · ring
+  first
+  | (show Model.C07.qbfs _ _ _ = _; simp)
+  | (
+      match n with
+      | 0 => simp [Generated.C07.qbfs, qbfs, qbfsPQ, pow_two]
+      | 1 => simp [Generated.C07.qbfs, qbfs, qbfsPQ, pow_two]
+      | n+2 =>
+        have h0 : ¬ (((n + 2 : ℕ) : ℤ) = 0) := by omega
+        have h1 : ¬ (((n + 2 : ℕ) : ℤ) = 1) := by omega
+        unfold Generated.C07.qbfs
+        simp only [if_neg h0, if_neg h1, ofInt_eq, npow_eq, Int.cast_one, Int.cast_ofNat, Int.cast_zero]
+        rw [show ((n+2:ℕ):ℤ) + 1 = 2 + ((n+1:ℕ):ℤ) by push_cast; ring]
+        rw [show qbfs sqrt (n+2) x = (qbfsPQ sqrt (x*x) (n+1)).2.2.2 * (x*x*(1-x*x)) from by
+          simp [qbfs, qbfsPQ_succ]]
+        congr 1
+        · refine (forRange_induct (fun k (s : K × K × K × K × K × K × K × K × K) =>
+              s.2.1 = (qbfsPQ sqrt (x*x) k).1 ∧ s.2.2.1 = (qbfsPQ sqrt (x*x) k).2.1
+              ∧ s.2.2.2.2.2.2.2.1 = (qbfsPQ sqrt (x*x) k).2.2.1 ∧ s.2.2.2.2.2.2.2.2 = (qbfsPQ sqrt (x*x) k).2.2.2
+              ∧ (1 ≤ k → s.2.2.2.2.2.2.1 = (qbfsPQ sqrt (x*x) k).2.2.2)) 2 _ _ ?_ ?_ (n+1)).2.2.2.2 (by omega)
+          · simp [qbfsPQ, pow_two]
+          · rintro k s ⟨hs1, hs2, hs3, hs4, -⟩
+            have eg : qbfsGi sqrt (2 + (k:ℤ) - 1) = qbfsG sqrt (k+1) := by
+              simp only [qbfsGi]; congr 1; omega
+            have eh : qbfsHi sqrt (2 + (k:ℤ) - 2) = qbfsH k (qbfsF sqrt k) := by
+              have : (2 + (k:ℤ) - 2).toNat = k := by omega
+              simp only [qbfsHi, this]
+            have ef : qbfsFi sqrt (2 + (k:ℤ)) = qbfsF sqrt (k+2) := by
+              simp only [qbfsFi]; congr 1; omega
+            simp only [eg, eh, ef, hs1, hs2, hs3, hs4, qbfsPQ_succ, pow_two]
+            exact ⟨trivial, trivial, trivial, trivial, fun _ => trivial⟩
+        · ring)
 
 /-- `cheby1..4` wire `jacobi` with parameters `(∓½, ∓½)`, evaluate the normaliser at `x = 1` with the same
     parameters, and use numerators `1, n+1, 1, 2n+1` -/
@@ -283,7 +305,7 @@ theorem gen_zernike (n : ℕ) (m : ℤ) (r : K) :
     ∧ Generated.C07.zernikeAzimuthNegSinPosCosTimesRPowAbsM = true := by
   refine ⟨?_, ?_, ?_, ?_, ?_⟩
   · by_cases h : m = 0 <;> simp [Generated.C07.zernikeNormSq, zernikeNormSq, h]
-  · simp [Generated.C07.zernikeX]
+  · simp [Generated.C07.zernikeX, pow_two]
   · simp [Generated.C07.zernikeNj]
   · simp [Generated.C07.zernikeAB]
   · decide
@@ -292,7 +314,7 @@ theorem gen_zernike (n : ℕ) (m : ℤ) (r : K) :
 theorem gen_qcon (P x : K) :
     Generated.C07.qconX x = 2 * x ^ 2 - 1 ∧ (Generated.C07.qconAB : K × K) = (0, 4)
     ∧ Generated.C07.qconOut P x = P * x ^ 4 := by
-  simp [Generated.C07.qconX, Generated.C07.qconAB, Generated.C07.qconOut]
+  simp [Generated.C07.qconX, Generated.C07.qconAB, Generated.C07.qconOut, pow_two]
 
 /-- `xy(m, n, x, y) = x^m y^n`; `hopkins(a,b,c,r,t,H) = az · r^b · H^c` with `az = sin(|a|t)` (`a<0`) or `cos(at)` -/
 theorem gen_xy_hopkins (m n : ℕ) (x y az r H : K) :
@@ -464,7 +486,7 @@ theorem zernike_norm_sq (n : ℕ) (m : ℤ) :
 theorem xy_hopkins_def (m n : ℕ) (x y az r H : K) :
     Generated.C07.xy (m:ℤ) (n:ℤ) x y = x ^ m * y ^ n
     ∧ Generated.C07.hopkins (m:ℤ) (n:ℤ) az r H = az * r ^ m * H ^ n := by
-  simp [Generated.C07.xy, Generated.C07.hopkins]
+  simp [Generated.C07.xy, Generated.C07.hopkins, xy, hopkins]
 
 /-- `Qcon_n(x) = x⁴ · P_n^{(0,4)}(2x²−1)` -/
 theorem qcon_def (n : ℕ) (x : K) :
